@@ -178,9 +178,36 @@ def lockstep (fuel : Nat) (s : S) (idx : Nat) (msgs : String) : S × String :=
       let msgs := if (out.splitOn " !serial:").length > 1 then msgs ++ " !serial:" ++ ((out.splitOn " !serial:").getD 1 "") else msgs
       lockstep fuel s' (k + 1) msgs
 
+/-- `regrace mode`: two registrations crossing each other (the first stops right after its table's
+    mutex exists, the second runs to the end, then the first), then a writer over both new tables
+    that commits / aborts, then a committing writer over both: everything finishes.  The model names
+    tables by position; the answer compared is only whether every thread finished
+    (`C10_conc_no_deadlock`, `C10_conc_can_always_finish`). -/
+def regrace (s : S) (mode : String) : S × String :=
+  let n := s.st.threads.length
+  let nt := s.st.root.length
+  let (s, _) := step s ["register"]
+  let (s, _) := step s ["register"]
+  let (s, _) := step s ["step", toString n]
+  let rec run (fuel : Nat) (s : S) (k : Nat) : S :=
+    match fuel with
+    | 0 => s
+    | fuel + 1 =>
+      let (s', out) := step s ["step", toString k]
+      if out.startsWith "finished" || out.startsWith "done" || out.startsWith "no-thread" || out.startsWith "blocked" then s' else run fuel s' k
+  let s := run 64 s (n + 1)
+  let s := run 64 s n
+  let tabs := s!"{nt},{nt + 1}"
+  let (s, _) := step s ["writer", tabs, mode, "-", "-"]
+  let (s, _) := lockstep 4000 s 0 ""
+  let (s, _) := step s ["writer", s!"{nt + 1},{nt}", "commit", "-", "-"]
+  let (s, out) := lockstep 4000 s 0 ""
+  (s, (out.splitOn " ").headD "")
+
 def stepAll (s : S) (ws : List String) : S × String :=
   match ws with
   | ["lockstep"] => lockstep 4000 s 0 ""
+  | ["regrace", mode] => regrace s mode
   | _ => step s ws
 
 end Drv.Sched
